@@ -408,13 +408,20 @@ where
                     "Unexpected end of file.",
                 ));
             }
-            if !path_str.starts_with("    ") || path_str.trim().is_empty() {
+            // Paths may begin or end with whitespace, so remove only the indentation and
+            // the line terminator. Control characters in paths are escaped, so neither
+            // CR nor LF can be a part of the path.
+            let path_payload = path_str
+                .strip_prefix("    ")
+                .map(|p| p.trim_end_matches(['\r', '\n']))
+                .unwrap_or_default();
+            if path_payload.is_empty() {
                 return Err(Error::new(
                     ErrorKind::InvalidData,
                     format!("Path expected: {path_str}"),
                 ));
             }
-            let path = Path::from_escaped_string(path_str.trim()).map_err(|e| {
+            let path = Path::from_escaped_string(path_payload).map_err(|e| {
                 Error::new(
                     ErrorKind::InvalidData,
                     format!("Invalid path {path_str}: {e}"),
